@@ -59,7 +59,26 @@ Definition alloc_chain (k : nat) (d : tdump) : tdump * list N :=
 Definition free_chain (d : tdump) (is : list N) : tdump := fold_left free1 is d.
 
 (* ---- histories of one table: values are stored (in k+1 slots) and removed (the j-th live value, oldest first) ---- *)
-Inductive aop := AStore (k : nat) | ARemove (j : nat).
+(* ValueTable::overwrite_chain on an existing chain (a value is replaced by one that needs k+1 slots): the
+   slots of the old chain are reused in order; a longer value takes further slots from the allocator and
+   links them behind the old last slot, a shorter one ends in its (k+1)-th slot and the rest of the old chain is
+   cleared *)
+Definition areplace (d : tdump) (c : list N) (k : nat) : tdump * list N :=
+  if Nat.leb (length c) (S k) then
+    let '(d1, extra) := alloc_n (S k - length c) d in
+    match extra with
+    | [] => (d1, c)
+    | _ => match c with
+           | [i] => (link_chain d1 (i :: extra), i :: extra)
+           | _ => (link_parts d1 (last c 0 :: extra), c ++ extra)
+           end
+    end
+  else
+    let keep := firstn (S k) c in
+    let d1 := set_slot d (last keep 0) RSize in
+    (fold_left free1 (skipn (S k) c) d1, keep).
+
+Inductive aop := AStore (k : nat) | ARemove (j : nat) | AReplace (j k : nat).
 Fixpoint remove_nth {A} (n : nat) (l : list A) : list A :=
   match l, n with
   | [], _ => []
@@ -74,6 +93,10 @@ Definition astep (st : tdump * list (list N)) (o : aop) : tdump * list (list N) 
                  | Some c => (free_chain d c, remove_nth j live)
                  | None => (d, live)
                  end
+  | AReplace j k => match nth_error live j with
+                    | Some c => let '(d', c') := areplace d c k in (d', firstn j live ++ c' :: skipn (S j) live)
+                    | None => (d, live)
+                    end
   end.
 (* a table file right after its creation: the header slot only *)
 Definition empty_table : tdump := {| filled := 1; free_head := 0; slots := [] |}.
